@@ -150,18 +150,18 @@ pub fn cases_of_uni(u: i32, tier: &str, seed: u64, emit: &mut dyn FnMut(String, 
     let thorough = tier == "thorough";
     let mut rng = Rng::new(seed ^ 0x4D41_474E ^ (u as u64).wrapping_mul(0x9E37_79B9_7F4A_7C15));
     let s = (u as u64).wrapping_add(seed);
-    let combos: Vec<(Kind, RotationMagneticMomentAction)> = if thorough { COMBOS.to_vec() } else { vec![COMBOS[(s % 4) as usize]] };
     let nops = mag_conv_ops(u).len();
-    // quick tier: sub-selections use s/3 (the UNI numbers themselves are selected by s % 3), and the largest groups
-    // (>= 192 conventional operations: the oracles are quadratic) get a single re-described case for one number in four
+    // the largest groups (>= 192 conventional operations: the oracles are quadratic in operations x atoms) get one
+    // (kind, action) combination only; quick: a single re-described case for one such number in four
     let s3 = s / 3;
     let huge = nops >= 192;
     if !thorough && huge && s3 % 4 != 0 {
         return;
     }
-    for (kind, action) in combos {
+    let combos: Vec<(Kind, RotationMagneticMomentAction)> = if thorough && !huge { COMBOS.to_vec() } else { vec![COMBOS[(s % 4) as usize]] };
+    for (ci, (kind, action)) in combos.into_iter().enumerate() {
         let ct = combo_tag(kind, action);
-        // large groups: magnetic species only (the brute-force premise check and the oracles are quadratic in the atoms)
+        // large groups: magnetic species only
         let nonmag = if nops > (if thorough { 96 } else { 48 }) { 0 } else { 1 };
         let base = match mag_crystal(u, kind, action, &mut rng, nonmag, 12) {
             Some(b) => b,
@@ -172,28 +172,36 @@ pub fn cases_of_uni(u: i32, tier: &str, seed: u64, emit: &mut dyn FnMut(String, 
         };
         let symprec = 1e-4;
         let msp = |rng: &mut Rng| -> Option<f64> { *rng.pick(&[None, Some(1e-4), Some(3e-4), Some(1e-3)]) };
-        if thorough || (s3 % 3 == 0 && !huge) {
+        // which variants this base crystal gets.  quick: sub-selections by s/3 (the UNI numbers themselves are selected
+        // by s % 3).  thorough: every combination gets a re-described case and one of own / reversed / zero / supercell,
+        // so that every UNI number sees all variants and every combination sees re-descriptions.
+        let small = base.cell().num_atoms() <= 100;
+        let (own, rev, zero, sup) = if thorough {
+            if huge { (true, false, false, false) } else { (ci == 0 || (ci == 3 && !small), ci == 1, ci == 2, ci == 3 && small) }
+        } else {
+            (s3 % 3 == 0 && !huge, s3 % 4 == 1 && !huge, s3 % 5 == 2 && !huge, s3 % 6 == 3 && small)
+        };
+        if own {
             let m = msp(&mut rng);
             emit(format!("u{}-{}-own", u, ct), &base, symprec, m);
         }
-        let nre = if thorough { 2 } else { 1 };
-        for k in 0..nre {
+        {
             let c = redescribe(&base, &mut rng, 2, None);
             let m = msp(&mut rng);
-            emit(format!("u{}-{}-re{}", u, ct, k), &c, symprec, m);
+            emit(format!("u{}-{}-re0", u, ct), &c, symprec, m);
         }
-        if thorough || (s3 % 4 == 1 && !huge) {
+        if rev {
             let c = redescribe(&base, &mut rng, 2, None).reverse_moments();
             let m = msp(&mut rng);
             emit(format!("u{}-{}-rev", u, ct), &c, symprec, m);
         }
-        if thorough || (s3 % 5 == 2 && !huge) {
+        if zero {
             let lvl = 1 + rng.range(0, 1) as u32;
             let c = redescribe(&base, &mut rng, lvl, None).zero_moments();
             let m = msp(&mut rng);
             emit(format!("u{}-{}-zero", u, ct), &c, symprec, m);
         }
-        if (thorough || s3 % 6 == 3) && base.cell().num_atoms() <= (if thorough { 200 } else { 100 }) {
+        if sup {
             let idx = rng.range(2, if thorough { 4 } else { 3 }) as i32;
             let all = hnfs_of_index(idx);
             let hm = *rng.pick(&all);
